@@ -13,7 +13,7 @@ Definition mk_tags (c : cfg) (k : option klass) (err : bool) (r : option stop) (
   {| t_class := k; t_err := err; t_stop := r; t_cause := cs; t_op := has_opname c |}.
 
 Definition emit_evs (c : cfg) (n : evname) (att sl : Z) (k : option klass) (err : bool) (r : option stop)
-    (cs : option cause) (ra : option Z) : list ev :=
+    (cs : option cause) (ra : option hint) : list ev :=
   (if has_metric c then [EMetric n att sl (mk_tags c k err r cs)] else []) ++
   (if has_log c then [ELog n att sl (mk_tags c k err r cs) (match n with N_RETRY => ra | _ => None end)] else []).
 
